@@ -51,7 +51,9 @@ inductive SType where
   | seq (fs : SFields)            -- the fields of one constructor, in schema order
   | sum (cs : SCtors)             -- the constructors of a type with their tags
   | tag (bits : List Bool)        -- the tag of a single-constructor type, where Go stores it as a Magic field
-  | hashmapE                      -- hme_empty$0 (the empty dictionary is the only dictionary value in scope)
+  | hashmapE (n : Nat) (k t : SType)
+      -- hme_empty$0 {n:#} {X:Type} = HashmapE n X;  hme_root$1 {n:#} {X:Type} root:^(Hashmap n X) = HashmapE n X;
+      -- `k`: the schema type of the n-bit key; the tree `Hashmap n X` is the dictionary model of C05
   | anycast                       -- anycast_info$_ depth:(#<= 30) { depth >= 1 } rewrite_pfx:(bits depth)
   | msgAddress                    -- MsgAddressInt / MsgAddressExt, four constructors (see `specMsgAddress`)
   | payloadList                   -- wallet v1..v4: up to four (mode:uint8, ^msg)
@@ -127,6 +129,43 @@ def specMsgAddress (v : Val) : Option Chunk :=
     else none
   | _ => none
 
+def mapMOpt {α β} (f : α → Option β) : List α → Option (List β)
+  | [] => some []
+  | a :: as =>
+    match f a, mapMOpt f as with
+    | some b, some bs => some (b :: bs)
+    | _, _ => none
+
+/-- the value codec of a dictionary whose values serialise as the schema says -/
+def specCodec (f : Val → Option Chunk) : Hashmap.Codec Val where
+  enc v := match f v with
+    | some c => .ok c
+    | none => .err "no schema serialisation"
+  dec _ _ := .err "encoder only"
+
+/-- an n-bit dictionary key: the bits of its schema serialisation -/
+def keyBits (n : Nat) (c : Option Chunk) : Option Hashmap.Key :=
+  match c with
+  | some c => if c.1.length = n ∧ c.2.isEmpty then some c.1 else none
+  | none => none
+
+/-- `HashmapE n X`, given how keys (`kf`) and values (`vf`) serialise -/
+def specDict (n : Nat) (kf vf : Val → Option Chunk) (v : Val) : Option Chunk :=
+  match dictParts v with
+  | some (ks, vs) =>
+    if ks.isEmpty then some ([false], [])                         -- hme_empty$0
+    else (match mapMOpt (fun kv => keyBits n (kf kv)) ks with
+      | some kbits => (match zipKV kbits vs with
+        | some kvs =>
+          -- hme_root$1 root:^(Hashmap n X): the tree of C05 (`Hashmap.marshal`: hm_edge / hmn_leaf / hmn_fork with the
+          -- shortest labels) over the values as the schema serialises them
+          (match Hashmap.marshal (specCodec vf) n kvs with
+          | .ok root => some ([true], [root])
+          | _ => none)
+        | none => none)
+      | none => none)
+  | none => none
+
 def specPayloadItems : Val → Option Chunk
   | .nil => some ([], [])
   | .cons (.cons (.cons (.cell c) .nil) (.cons (.int mode) .nil)) rest =>
@@ -191,9 +230,7 @@ def specChunk (senv : SEnv) : Nat → SType → Val → Option Chunk
         | none => none)
       | _ => none)
     | .tag bits => some (bits, [])
-    | .hashmapE => (match v with
-      | .nil => some ([false], [])
-      | _ => none)
+    | .hashmapE n sk st => specDict n (fun x => specChunk senv fuel sk x) (fun x => specChunk senv fuel st x) v
     | .anycast => specAnycast v
     | .msgAddress => specMsgAddress v
     | .payloadList => if Prim.valLen v ≤ 4 then specPayloadItems v else none
@@ -254,6 +291,9 @@ def byName (senv : SEnv) : Nat → SType → Val → Val
     | .goPtr t => (match v with
       | .cons x .nil => .cons (byName senv fuel t x) .nil
       | _ => v)
+    | .hashmapE _ _ st => (match v with
+      | .cons ks (.cons vs .nil) => .cons ks (.cons (Val.list (vs.toList.map fun x => byName senv fuel st x)) .nil)
+      | _ => v)
     | _ => v
 def byNameFields (senv : SEnv) : Nat → SFields → Val → Val
   | 0, _, v => v
@@ -276,7 +316,7 @@ def specCell (senv : SEnv) (fuel : Nat) (S : SType) (v : Val) : Option Cell :=
 def Grams : SType := .varUint 16
 
 /-- extra_currencies$_ dict:(HashmapE 32 (VarUInteger 32)) = ExtraCurrencyCollection; -/
-def ExtraCurrencyCollection : SType := .seq (.cons "dict" .hashmapE .nil)
+def ExtraCurrencyCollection : SType := .seq (.cons "dict" (.hashmapE 32 (.nat 32) (.varUint 32)) .nil)
 
 /-- currencies$_ grams:Grams other:ExtraCurrencyCollection = CurrencyCollection; -/
 def CurrencyCollection : SType := .seq (.cons "grams" Grams (.cons "other" (.named "ExtraCurrencyCollection") .nil))
@@ -304,11 +344,14 @@ def CommonMsgInfo : SType := .sum
 /-- tick_tock$_ tick:Bool tock:Bool = TickTock; -/
 def TickTock : SType := .seq (.cons "tick" .bool (.cons "tock" .bool .nil))
 
+/-- simple_lib$_ public:Bool root:^Cell = SimpleLib; -/
+def SimpleLib : SType := .seq (.cons "public" .bool (.cons "root" .cellRef .nil))
+
 /-- _ split_depth:(Maybe (## 5)) special:(Maybe TickTock) code:(Maybe ^Cell) data:(Maybe ^Cell)
       library:(HashmapE 256 SimpleLib) = StateInit; -/
 def StateInit : SType := .seq
   (.cons "split_depth" (.maybe (.nat 5)) (.cons "special" (.maybe (.named "TickTock"))
-  (.cons "code" (.maybe .cellRef) (.cons "data" (.maybe .cellRef) (.cons "library" .hashmapE .nil)))))
+  (.cons "code" (.maybe .cellRef) (.cons "data" (.maybe .cellRef) (.cons "library" (.hashmapE 256 (.bits 256) (.named "SimpleLib")) .nil)))))
 
 /-- message$_ {X:Type} info:CommonMsgInfo init:(Maybe (Either StateInit ^StateInit)) body:(Either X ^X)
       = Message X;   (X := Any) -/
@@ -334,7 +377,7 @@ def SignedMsgBody : SType := .seq (.cons "signature" (.bits 512) (.cons "body" .
 
 def senvList : List (String × SType) := [
   ("ExtraCurrencyCollection", ExtraCurrencyCollection), ("CurrencyCollection", CurrencyCollection),
-  ("MsgAddress", MsgAddress), ("CommonMsgInfo", CommonMsgInfo), ("TickTock", TickTock), ("StateInit", StateInit),
+  ("MsgAddress", MsgAddress), ("CommonMsgInfo", CommonMsgInfo), ("TickTock", TickTock), ("SimpleLib", SimpleLib), ("StateInit", StateInit),
   ("Message", Message), ("Grams", Grams), ("WalletV3Body", WalletV3Body), ("WalletV4Body", WalletV4Body),
   ("SignedMsgBody", SignedMsgBody)]
 
